@@ -268,9 +268,52 @@ def must_produce(lab):
     return fin
 
 
+def side_large_rooms(max_size, seeds):
+    """CONCRETE side check (enumeration, not a solver verdict): the wall-split arithmetic of rooms / memory_rooms on long grids, which the
+    symbolic shapes (<= 9x9) cannot reach: size x number of rooms along one axis, the other axis 7 cells with one room"""
+    def f():
+        import numpy as np
+        bad, cases = [], 0
+        for fname in ('rooms', 'memory_rooms'):
+            fn = getattr(R, fname)
+            for size in range(4, max_size + 1):
+                for num in range(1, size // 2 + 1):
+                    for vertical in (True, False):
+                        shape = Shape(size, 7) if vertical else Shape(7, size)
+                        layout = (num, 1) if vertical else (1, num)
+                        for seed in seeds:
+                            if len(bad) >= 5:
+                                break
+                            cases += 1
+                            kw = dict(colors={Color.RED, Color.GREEN}, num_beacons=1, num_exits=2) if fname == 'memory_rooms' else {}
+                            try:
+                                st = fn(shape, layout, rng=np.random.default_rng(seed), **kw)
+                            except ValueError:
+                                continue
+                            except Exception as e:
+                                bad.append(dict(label='fails-other-than-ValueError', message=f'{fname}({shape}, {layout}) seed {seed}: {type(e).__name__}: {e}', inputs=dict(inputs={}, notes={})))
+                                continue
+                            H, W = shape.height, shape.width
+                            why = None
+                            if (st.grid.shape.height, st.grid.shape.width) != (H, W):
+                                why = f'shape {st.grid.shape}'
+                            else:
+                                holes = [(y, x) for y in range(H) for x in range(W) if (y in (0, H - 1) or x in (0, W - 1)) and not isinstance(st.grid.objects[y][x], Wall)]
+                                ay, ax = st.agent.position.y, st.agent.position.x
+                                if holes:
+                                    why = f'boundary cells {holes[:4]} are not walls'
+                                elif not (0 < ay < H - 1 and 0 < ax < W - 1) or st.grid.objects[ay][ax].blocks_movement:
+                                    why = f'agent at {(ay, ax)}'
+                            if why:
+                                bad.append(dict(label='malformed-initial-state-on-a-long-grid', message=f'{fname}({shape}, {layout}) seed {seed}: {why}', inputs=dict(inputs={}, notes={})))
+        return dict(cases=cases, violations=bad[:5], detail=f'rooms / memory_rooms on 7 x n and n x 7 grids, n <= {max_size}, 1..n/2 rooms along the long axis, seeds {list(seeds)}: '
+                                                            f'ValueError or a state of the requested shape with an unbroken wall boundary and the agent strictly inside on a free cell')
+    return f
+
+
 def obligations(tier):
     q = tier == 'quick'
-    obs = []
+    obs = [Obligation('side-long-grids-rooms', side_large_rooms(40 if q else 72, [0] if q else [0, 1]), kind='concrete')]
 
     def add(name, h, params, fin=None, tl=None):
         obs.append(Obligation(name, h, params, finalize=fin, time_limit=tl))
